@@ -508,6 +508,8 @@ def c12_check(sc, rng):
             b = dict(vbase, ops=pre + [['run', dt, T, vctl, None], ['reset']] + ([['newsolver']] if newsolver else []) +
                      [['setinit', vbase['pos0'], vbase['spd0']]] + [['run', dt, T, vctl, None]])
             ra, rb = scen.run_impl(a), scen.run_impl(b)
+            if 'Timeout' in (ra['err'] or '') + (rb['err'] or ''):
+                continue                # the harness's own wall-clock limit (a loaded machine), not an outcome of the code
             if ra['err'] or rb['err']:
                 if ra['err'] != rb['err']:
                     out.append(W('rerun-raises', f'original run: {ra["err"]}, reset + rerun ({"new" if newsolver else "same"} solver): {rb["err"]} {rb.get("errmsg")}', b))
@@ -533,6 +535,8 @@ def c12_check(sc, rng):
     a = dict(base, ops=pre + [['run', dt, Tall, ctl, None]])
     b = dict(base, ops=pre + [['run', dt, T1, ctl, None], ['run', dt2, T2, ctl, None]])
     ra, rb = scen.run_impl(a), scen.run_impl(b)
+    if 'Timeout' in (ra['err'] or '') + (rb['err'] or ''):
+        return out
     if ra['err'] or rb['err']:
         if bool(ra['err']) != bool(rb['err']):
             out.append(W('continue-raises', f'single run: {ra["err"]}, split run: {rb["err"]} {rb.get("errmsg")}', b))
